@@ -526,6 +526,15 @@ public:
     return i;
   }
   long defaultRuns(Tier t) const override { return t == QUICK ? 8000 : 200000; }
+  // regression prefix: configurations that exposed repaired defects only at rare seeds (same executor)
+  long enumCount(Tier) const override { return 1; }
+  Plan enumPlan(long, Tier) const override {
+    // table transitions with zeros + emissions down to 1e-200 over 3130 positions: every predecessor of one state underflows relative to
+    // the best state (found at VERIF_SEED=5: log-sum derivatives were NaN)
+    Plan p; p.cfg["L"] = 3129; p.cfg["chunk"] = 0; p.cfg["emseed"] = 12988839; p.cfg["finalorder"] = 6; p.cfg["n"] = 3; p.cfg["shared"] = 0; p.cfg["trans"] = 2; p.cfg["wide"] = 1; p.cfg["enumerated"] = 1;
+    Op o("read"); o.a = 5; o.b = 0; o.c = 2198; o.d = 0; p.ops.push_back(o);
+    return p;
+  }
   Plan generate(Rng& rng, Tier) const override {
     Plan p;
     p.cfg["n"] = rng.below(5);
